@@ -803,11 +803,53 @@ def special_sequences(ctx, rng):
             ctx.event("self_array_alignment_checked")
 
 
+def sizes_named_in_lengths(ctx):
+    """A structure whose size is named (through `sizeof`) in the array length of *another* structure, next to a field:
+    after it was extended, the dependent structure counts with the size it has now -- as the same declarations do on a
+    fresh object that saw the final text only (the dependent one does not contain it as a member: this is not K13)."""
+    final = ("struct hdr { uint8 kind; uint16 len; uint32 crc; };\n"
+             "struct pkt { uint8 total; char payload[total - sizeof(hdr)]; uint8 t; };\n"
+             "struct twice { uint8 k; uint16 v[k * sizeof(hdr) / 7]; uint8 t; };\n"
+             "struct pure { uint8 pad[sizeof(hdr)]; uint8 t; };")
+    first = "struct hdr { uint8 kind; };\n" + final.split("\n", 1)[1].rsplit("\n", 1)[0]
+    data = bytes([12]) + bytes(range(0x41, 0x41 + 40))
+    for compiled in (True, False):
+        for how in ("add_field", "batch"):
+            ctx.evaluation(("sizes-in-lengths", compiled, how))
+            ctx.cell("size-named-in-the-length-of-another-structure")
+            det = {"workload": "sizes-in-lengths", "compiled": compiled, "how": how, "text": first}
+            try:
+                cs = lib.load(first, "<", False, compiled)
+                for nm in ("pkt", "twice"):          # used before the extension
+                    getattr(cs, nm)(data)
+                if how == "add_field":
+                    cs.hdr.add_field("len", cs.uint16)
+                    cs.hdr.add_field("crc", cs.uint32)
+                else:
+                    with cs.hdr.start_update():
+                        cs.hdr.add_field("len", cs.uint16)
+                        cs.hdr.add_field("crc", cs.uint32)
+                ref = lib.load(final, "<", False, compiled)
+                got = {nm: (lib.stable_repr(getattr(cs, nm)(data)), getattr(cs, nm)(data).dumps().hex()) for nm in ("pkt", "twice")}
+                want = {nm: (lib.stable_repr(getattr(ref, nm)(data)), getattr(ref, nm)(data).dumps().hex()) for nm in ("pkt", "twice")}
+                hand = (len(cs.pkt(data).payload), len(cs.twice(data).v))
+            except Exception as e:  # noqa: BLE001
+                ctx.violation("build", f"incremental-build-raises:{type(e).__name__}", dict(det, error=lib.exc_sig(e)))
+                continue
+            if got != want or hand != (12 - 7, 12 * 7 // 7):
+                ctx.violation("behaviour", "length-over-sizeof-keeps-the-size-of-an-intermediate-state",
+                              dict(det, got=repr(got)[:400], want=repr(want)[:400], entries=hand))
+            else:
+                ctx.event("sizes_in_lengths_checked")
+
+
 def run(ctx):
     if ctx.shard == 0:
         self_reference(ctx)
     if ctx.shard == 1:
         special_sequences(ctx, ctx.rng("special"))
+    if ctx.shard == 2:
+        sizes_named_in_lengths(ctx)
     for i in range(N_CASES[ctx.tier]):
         if ctx.out_of_time():
             break
@@ -825,6 +867,7 @@ def replay(ctx, detail):
         print("record:", detail)
         self_reference(ctx)
         special_sequences(ctx, random.Random(0))
+        sizes_named_in_lengths(ctx)
         return
     case = engine.case_from_detail(detail)
     print("definition:\n" + case["text"])
